@@ -22,6 +22,12 @@ def _spec(module):
             'units': {'cJSON.c': 'eff_main.c', 'cJSON_Utils.c': 'eff_utils.c'},
             'rules': [eff.eff1, eff.eff2, eff.eff3, eff.eff4, eff.eff5],
         }]
+    if module == 'utils':
+        from . import tab, lst, out
+        return [{
+            'units': {'cJSON.c': 'core_min.c', 'cJSON_Utils.c': 'utils_bad.c'},
+            'rules': [tab.tab8, tab.tab9, tab.tab10, tab.tab11, tab.tab12, lst.lst1, out.out5, out.out6, out.out7],
+        }]
     raise AnalysisBroken('no fixture spec for module %s' % module)
 
 
@@ -49,9 +55,24 @@ def run_module(module):
         names = []
         for u in units.values():
             names.extend(f.name for f in u.function_list)
+        expect = {}
+        for fname in spec['units'].values():
+            for line in open(os.path.join(FX, fname)):
+                m = re.search(r'EXPECT-FAIL:\s*(\S+)\s+(\S+)', line)
+                if m:
+                    expect.setdefault(m.group(2), set()).add(m.group(1))
         for name in names:
             m = re.match(r'bad_([A-Z]+[0-9]*[a-z]?)_', name)
             fl = failing.get(name, [])
+            if name in expect:
+                for want in sorted(expect[name]):
+                    hit = [o for o in fl if o.rule == want]
+                    out.append(('%s:%s/%s' % (module, name, want), bool(hit),
+                                'reported: %s' % hit[0].what if hit else 'rule %s did not fire' % want))
+                other = [o for o in fl if o.rule not in expect[name]]
+                out.append(('%s:%s/others' % (module, name), not other,
+                            'no other rule fired' if not other else 'false alarm: %s %s -- %s' % (other[0].rule, other[0].what, other[0].detail)))
+                continue
             if m:
                 want = m.group(1)
                 hit = [o for o in fl if o.rule.split('-')[0] == want or o.rule == want]
